@@ -158,6 +158,12 @@ class ValScoreVC(V.VC):
     def is_none(self, src, node, st):
         if src == "y":
             return self.y_none
+        # any other tested name (an optional parameter with default None): a free Boolean -- both cases are explored, and the
+        # contract below must hold in both (a caller-supplied value that replaces what the function derives from the model is
+        # outside the contract unless it denotes the same thing)
+        import re
+        if re.fullmatch(r"[A-Za-z_][A-Za-z_0-9]*", src):
+            return z3.Bool(f"{src}_is_None")
         raise V.VCError(f"needs contract: {src} is None")
 
     def length_of(self, v, st, axis=0):
@@ -262,6 +268,24 @@ class ValScoreVC(V.VC):
                     okaff = ok1 and ok2
             self.prove("block: affinity is y[j:j+b][:, j:j+b] when y is given, else compute_affinity of the block", st.assm,
                        z3.And(z3.BoolVal(bool(okaff)), cond == z3.Not(self.y_none)) if cond is not None else False)
+            # the columns the computed affinity is taken over: the model's CURRENT selection (asked of the model in this very
+            # call) in dynamic mode without a given affinity, every column otherwise -- on every path, whatever optional
+            # arguments the function has
+            okcols, ccond = False, None
+            if okaff:
+                cols = a2.a[0].a[1]
+                if isinstance(cols, tuple) and cols[0] == "ite":
+                    _, ccond, c1, c2 = cols
+                    is_sel = lambda c_: isinstance(c_, V.Opaque) and c_.tag == "call:clf.get_selection" and not c_.a
+                    is_all = lambda c_: isinstance(c_, V.Opaque) and c_.tag in ("call:np.arange", "call:numpy.arange", "call:range") and len(c_.a) == 1
+                    if is_sel(c2) and is_all(c1):
+                        ccond, c1, c2 = z3.Not(ccond), c2, c1
+                    okcols = is_sel(c1) and is_all(c2)
+                elif isinstance(cols, V.Opaque) and cols.tag in ("call:np.arange", "call:numpy.arange", "call:range"):
+                    okcols, ccond = True, z3.BoolVal(False)
+            self.prove("block: a computed affinity is taken over the model's current selection (clf.get_selection(), asked in this call) in dynamic mode, over all columns otherwise",
+                       st.assm + ([z3.Not(cond)] if cond is not None else []),
+                       z3.And(z3.BoolVal(bool(okcols)), ccond == z3.And(self.dynamic, self.y_none)) if ccond is not None else False)
             if part is not None:
                 st.ghost["cov"] = part.hi
                 st.ghost["t"] = st.ghost["t"] + 1
